@@ -234,7 +234,10 @@ structure Obs where
       allocate that much), some none = the handler panics,
       some (some (indent, column)) -/
   format : Option (Option (Int × Int))
-  hoverAnswers : Bool
+  /-- per probed request method: "null" (the empty answer: nothing reached a handler),
+      "answered" (a non-empty answer), "passed" (handed to the handler; its answer is not
+      looked at) -/
+  gate : List (String × String)
   inline : Option (Option (Int × Int))      -- items, indent
   published : Nat
   codes : List String
@@ -257,6 +260,32 @@ def includeVerdict (L D : Int) : Bool × Bool :=
   let r := HL.Settings.includeProbe [] L D
   (r.1, r.2.1)
 
+/-- docs/configuration.md, "Features": the requests each switch stands for (LSP method names),
+    with the switch and whether the fixed probe of that request has a non-empty answer whenever
+    it is answered (code actions need a hledger executable, which the probe does not assume);
+    then two requests no switch governs. -/
+def featureRequests : List (String × (Settings → Bool) × Bool) := [
+  ("textDocument/hover", (·.features.hover), true),
+  ("textDocument/completion", (·.features.completion), true),
+  ("textDocument/formatting", (·.features.formatting), true),
+  ("textDocument/semanticTokens/full", (·.features.semanticTokens), true),
+  ("textDocument/semanticTokens/full/delta", (·.features.semanticTokens), true),
+  ("textDocument/semanticTokens/range", (·.features.semanticTokens), true),
+  ("textDocument/codeAction", (·.features.codeActions), false),
+  ("textDocument/foldingRange", (·.features.foldingRanges), true),
+  ("textDocument/documentLink", (·.features.documentLinks), true),
+  ("workspace/symbol", (·.features.workspaceSymbol), true),
+  ("textDocument/definition", fun _ => true, true),
+  ("textDocument/documentSymbol", fun _ => true, true)]
+
+/-- **The statement, for the feature switches**: a request of a switched-off feature gets the
+    empty answer; a switched-on one is answered as ever. -/
+def gateWord (on nonEmpty : Bool) : String :=
+  if !on then "null" else if nonEmpty then "answered" else "passed"
+
+def expectedGate (s : Settings) : List (String × String) :=
+  featureRequests.map fun (m, sw, ne) => (m, gateWord (sw s) ne)
+
 /-- `client`: the server has a client to publish to; `verdict L D`: what the include probe
     reports (depth limit exceeded, included file too large).  No handler fails, for any
     settings. -/
@@ -270,15 +299,16 @@ def expectedObsAt (s : Settings) (client : Bool) (verdict : Int → Int → Bool
   let D := s.limits.maxIncludeDepth
   let loads := client && diag
   let (dep, big) := if loads then verdict L D else (false, false)
-  { completionItems := cap (if s.completion.fuzzyMatching then 8 else 6)
-    subsequenceItems := cap (if s.completion.fuzzyMatching then 8 else 0)
-    countsShown := s.completion.showCounts
+  { completionItems := if !s.features.completion then 0 else cap (if s.completion.fuzzyMatching then 8 else 6)
+    subsequenceItems := if !s.features.completion then 0 else cap (if s.completion.fuzzyMatching then 8 else 0)
+    countsShown := s.features.completion && s.completion.showCounts
     format :=
       if widthSkipped ind || widthSkipped mac then none
+      else if !s.features.formatting then some (some (2, 7))   -- no edits: the document as it was
       else some (some (ind,
         if s.formatting.alignAmounts then imax (ind + 13 + 2) (if 0 < mac then mac else 0)
         else ind + 3 + 2))
-    hoverAnswers := true
+    gate := expectedGate s
     inline :=
       if widthSkipped ind then none
       else if !s.features.inlineCompletion then some (some (0, -1))
